@@ -222,7 +222,8 @@ func (op Multp) Op_instruction_internal_state(arch *Arch, flavor string) string 
 }
 
 func (Op Multp) Op_instruction_verilog_reset(arch *Arch, flavor string) string {
-	return ""
+	// Without a reset value the state register is undefined and the instruction never starts
+	return "\t\t\tmultp_" + arch.Tag + "_state <= #1 multp_" + arch.Tag + "_put;\n"
 }
 
 func (Op Multp) Op_instruction_verilog_default_state(arch *Arch, flavor string) string {
